@@ -31,10 +31,41 @@ func failingProfile(t *Tape) *Profile {
 	return pf
 }
 
+// retryTemplate: one to four values of a Custom generator whose function (a) is abandoned from inside a nested draw every
+// other time (an inner filter runs out of tries: groups that never end inside a discarded attempt), so the value is
+// retried, (b) may be rejected by an enclosing filter, and (c) fails itself above a threshold - on a first try or on a retry.
+func retryTemplate(t *Tape) *Prog {
+	p := &Prog{NVars: 4, NSites: 2, NCustom: 1}
+	c := &CustomSpec{ID: 0, NDraw: 1, Max: t.Int("rt.max", 4, 30), Vars: []int{1, 2}}
+	c.FailIf = &Cond{Var: 1, F: 0, Op: OpGE, C: int64(t.Int("rt.thr", 1, c.Max))}
+	c.FKind = []FailKind{FKFatalf, FKPanicStr, FKErrorf, FKIndex}[t.Pick("rt.kind", 4)]
+	c.Site = 0
+	c.Body = []*Stmt{{K: SDraw, Var: 2, Gen: &GenSpec{K: "filter_rare", Sub: &GenSpec{K: "smallrange", A: t.Int("rt.dom", 1, 12)}}, Label: "ci0"}}
+	p.Customs = []*CustomSpec{c}
+	var elem *GenSpec = &GenSpec{K: "custom", Cust: c}
+	if t.Chance("rt.outer_filter", 40) {
+		elem = &GenSpec{K: "filter_even", Sub: elem}
+	}
+	gen := elem
+	if t.Chance("rt.slice", 60) {
+		a := t.Int("rt.min", 1, 3)
+		gen = &GenSpec{K: "slicen", A: a, B: a + t.Int("rt.span", 0, 3), Sub: elem}
+	}
+	p.Body = []*Stmt{{K: SDraw, Var: 0, Gen: gen, Label: "v"}}
+	if t.Chance("rt.tail", 50) {
+		p.Body = append(p.Body, &Stmt{K: SDraw, Var: 3, Gen: &GenSpec{K: "uint8"}, Label: "w"},
+			&Stmt{K: SIf, Cond: &Cond{Var: 3, F: 0, Op: OpGE, C: int64(t.Int("rt.tailthr", 0, 200))}, Body: []*Stmt{{K: SFail, FKind: FKFatal, Site: 1}}})
+	}
+	return p
+}
+
 func scenarioC01(rc *RunCtx) {
 	t := rc.T
 	pf := failingProfile(t)
 	prog := GenProg(t, pf)
+	if t.Chance("c01.retry_template", 6) {
+		prog = retryTemplate(t)
+	}
 	fl := genFlags(t, 40)
 	cc := genClockChoice(t, fl.ShrinkTime, 4, 2, 2, 6, 1)
 	name := genName(t, false)
